@@ -1057,6 +1057,9 @@ def parse_clist(s):
 # ---------------------------------------------------------------------------------------------
 # model correspondence: histories of calls and parameter changes replayed on Effects.callI / runHistory
 
+# families whose elements contain polarisation optics (the components are mixed): no per-component scalar term
+PER_COMPONENT_EXCLUDED = ('jones', 'jones-split', 'lyot-jones', 'multiscale-jones')
+
 HIST_WAVELENGTHS = (1.0, 0.75, 1.25)
 
 
@@ -1347,6 +1350,7 @@ def run(ctx):
     requests = []        # (line, kind-of-request, payload)
     denote_done = set()
     heavy_budget = ctx.scale(48, 600)
+    pc_budget = {}                              # large per-component requests: their own budget, per family
     for case in cases:
         e = by_name[(case['registry'], case['entry'])]
         ekey = (case['registry'], e.name)
@@ -1424,13 +1428,45 @@ def run(ctx):
                 ctx.count('denote-skipped-after-violation')
                 continue
             raise MachineryError('cannot build the IR term of %s: %s: %s' % (e.name, type(ex).__name__, ex))
+        if term is None and case['kind'] != 'scalar' and 'outs' in obs and len(obs['outs']) == len(obs['ins']):
+            # polarised input (vector: 2 components, Jones-matrix field: 4): the elements without polarisation optics act on
+            # every component as they act on a scalar field.  The scalar term is evaluated on each component of E1, E2
+            # and a*E1+E2 and compared with the corresponding component of the element's output (theorem
+            # family_semilinear then speaks about each component; the direct sum of linear maps is linear).
+            try:
+                term = ir_term(e, el, case['direction'], 'scalar', case['wavelength']) if e.family not in PER_COMPONENT_EXCLUDED else None
+            except Exception as ex:     # noqa
+                if ctx.violations:
+                    ctx.count('denote-skipped-after-violation')
+                    continue
+                raise MachineryError('cannot build the IR term of %s: %s: %s' % (e.name, type(ex).__name__, ex))
+            if term is not None:
+                reps = {'vector': 2, 'tensor': 4}[case['kind']]
+                for x_, o_ in zip(obs['ins'], obs['outs']):
+                    if np.asarray(x_).shape[:-1] != ((2,) if reps == 2 else (2, 2)) or np.asarray(o_[0]).shape[:-1] != np.asarray(x_).shape[:-1]:
+                        raise MachineryError('%s on a %s field: input/output is not made of %d components' % (e.name, case['kind'], reps))
+                obs = dict(obs, blocks=reps)        # arrays are C-ordered: component after component when flattened
         if term is not None:
             heavy = len(term) > 200000
-            if heavy and heavy_budget <= 0:
+            if heavy and 'blocks' in obs:
+                left = pc_budget.setdefault(e.family, ctx.scale(3, 60))
+                if left <= 0:
+                    ctx.count('denote-per-component-skipped-budget')
+                    continue
+                pc_budget[e.family] = left - 1
+            elif heavy and heavy_budget <= 0:
                 ctx.count('denote-skipped-budget')
                 continue
-            if heavy:
+            elif heavy:
                 heavy_budget -= 1
+            if 'blocks' in obs:
+                ctx.count('denote-per-component:%s %s' % (e.family, case['kind']))
+                requests.append(('C06 denote-family-blocks %d %s @ %s' % (obs['blocks'], term, ' @ '.join(clist(np.asarray(x).ravel()) for x in obs['ins'])),
+                                 'denote', (case, obs, e)))
+                ctx.count('denote-schema-blocks:' + term.split(' ', 1)[0])
+                ctx.extra.setdefault('blocks_request_MB', {})
+                ctx.extra['blocks_request_MB'][e.family] = round(ctx.extra['blocks_request_MB'].get(e.family, 0) + len(requests[-1][0]) / 1e6, 2)
+                continue
             requests.append(('C06 denote-family %s @ %s' % (term, ' @ '.join(clist(x) for x in obs['ins'])), 'denote', (case, obs, e)))
             ctx.count('denote-family:' + e.family)
             ctx.count('denote-schema:' + term.split(' ', 1)[0])
@@ -1497,7 +1533,7 @@ def run(ctx):
                 ref = parse_clist(toks[3 + k])
                 got = obs['outs'][k][0].ravel()
                 if ref.shape != got.shape or maxabs(ref - got) > TOL_MODEL * max(1.0, maxabs(got)):
-                    ctx.disagree('C06 denote', {'case': label, 'input': ('E1', 'E2', 'a*E1+E2')[k], 'schema': line.split(' ')[2],
+                    ctx.disagree('C06 denote', {'case': label, 'input': ('E1', 'E2', 'a*E1+E2')[k], 'schema': line.split(' ')[3 if 'blocks' in obs else 2],
                                                 'max_diff': (maxabs(ref - got) if ref.shape == got.shape else 'shape %r vs %r' % (ref.shape, got.shape)),
                                                 'scale': maxabs(got)})
 
